@@ -50,7 +50,7 @@ class QInteger(QToken):
     def check(string: str):
         token = ""
         for char in string:
-            if char.isdigit():
+            if char.isdecimal():
                 token += char
             else:
                 break
@@ -163,6 +163,8 @@ class QFunction(QToken):
         args_str = string[arg_start + 1 : arg_end]
         while args_str:
             (arg_t, arg), args_str = _parse_token(args_str, namespace)
+            if not arg_t:
+                raise QueryParseException("Function expected an argument, got nothing")
             comma = args_str.find(",")
             if comma != -1:
                 args_str = args_str[comma + 1 :]
@@ -238,7 +240,7 @@ class QDict(QToken):
             key = QString.parse(key_str, {}).value
             entries_str = entries_str.strip()
             # Remove :
-            if entries_str[0] != ":":
+            if not entries_str or entries_str[0] != ":":
                 raise QueryParseException("Key in dict is not followed by a :")
             entries_str = entries_str[1:]
             # parse val
@@ -342,9 +344,9 @@ def _parse_token(string: str, namespace: dict) -> Tuple[Tuple[Any, str], str]:
         raise QueryParseException(
             "Reached unreachable, cannot parse something that isn't a string"
         )
+    string = string.strip()
     if len(string) == 0:
         return (None, ""), string
-    string = string.strip()
     token = None
     t = None  # Declare so we can return it
     for t in qtypes:
